@@ -80,7 +80,7 @@ CHECKS["C01"] = dict(
     text="C01_compiled_equals_source_partial (Props_C01.v): for every body satisfying the computable side conditions c01_hyps (inside the proved fragment, nesting "
          "depth below the model's termination-checker fuel, model output legal Go in the sense of Strict.v) the model's output, run as Start(Delay(...)), has the outcome of the "
          "source coroutine (values, worlds at delivery, stop point, final world, panic). C01_compiled_equals_source_nofall_partial: for bodies without fallthrough the side conditions concern the INPUT only (fragment, acceptance by the model, depth of the program and of the intermediate code) and legality of the output is a conclusion. "
-         "C01_end_to_end_machine_partial: when moreover the model output contains no native Yield (lk, computable), "
+         "C01_end_to_end_machine_partial / C01_end_to_end_machine_nofall_partial: when moreover the model output contains no native Yield (lk, computable), "
          "the same outcome is produced by the consumer loop MoveNext/Current written with the generator object of the MACHINE model of seq.go (SeqMachine.v: co cells, continuations, For trampoline), for all large enough fuels. "
          "The side conditions of both theorems are evaluated on every generated program (evidence: theorem_side_conditions). Outside the fragment (yielding init/post, break out of a yielding case = finding F2, range, YieldFrom) the check is differential. Known findings F1/F2 are reported as such.",
     note=C_NOTE, design="§6 C01, §11")
